@@ -127,5 +127,25 @@ let () =
           Buffer.add_string buf (Printf.sprintf " C[%s|%s|%s|%s|v%d|x:%s]" o r r r (if disk_valid !st then 1 else 0) xs)
         | _ -> failwith "op") ops;
       Printf.printf "%s%s\n" id (Buffer.contents buf)
+    | id :: "F" :: _fmt :: cl :: "E" :: rest ->
+      (* internal/fs/tarfs unit case: F <format> <clean ids> E <raw:kind:content>* Q <path>* *)
+      let tbl = Array.of_list (list_of_commas cl) in
+      let clean r = let i = int_of_nat r in if i < Array.length tbl then nat_of_int tbl.(i) else r in
+      let rec split acc = function
+        | "Q" :: qs -> (List.rev acc, qs)
+        | x :: xs -> split (x :: acc) xs
+        | [] -> (List.rev acc, []) in
+      let (ents, qs) = split [] rest in
+      let tar = List.map (fun t ->
+        match String.split_on_char ':' t with
+        | [r; k; c] -> { te_raw = nat_of_int (ios r); te_kind = (if k = "r" then TReg else TOther);
+                         te_data = nat_of_int (ios c) }
+        | _ -> failwith "tar entry") ents in
+      let outs = List.map (fun q ->
+        match tar_open clean tar (nat_of_int (ios q)) with
+        | FData c -> "D" ^ string_of_int (int_of_nat c)
+        | FNotExist -> "N"
+        | FUnsupported -> "U") qs in
+      Printf.printf "%s %s\n" id (String.concat " " outs)
     | [] -> ()
     | _ -> Printf.printf "BADLINE %s\n" l)
